@@ -41,7 +41,7 @@ ORCH = 'chainables.orchestrate'
 
 
 def run(ctx: Ctx):
-  for r in (r1, r2, r3, r4, r5, r6, r7, r8, r9, r11):
+  for r in (r1, r2, r3, r4, r5, r6, r7, r8, r9, r11, r12):
     ctx.guard(r)
   from mlmverif.props import c06
   ctx.include('R-C20-10', '"liveness is a function only of the last recorded heartbeat": the'
@@ -454,7 +454,14 @@ def r5(ctx: Ctx):
             isinstance(c.func.value, ast.Name)):
           return c.func.value.id
     return None
-  reach = {n for n in rels if _recv(n) is None or not _owned_at(g, _recv(n), n)}
+  def _passes_owner(n):
+    return any(isinstance(c, ast.Call) and isinstance(c.func, ast.Attribute) and c.func.attr == 'release' and (
+        c.args or c.keywords) and unparse((c.args + [k.value for k in c.keywords])[0]) == 'self'
+               for x in cfgm.node_exprs(n) for c in ast.walk(x))
+  # `w.release(self)` is discharged by the callee when Worker.release re-validates the owner (R-C20-12)
+  revalidates = _release_revalidates(repo)
+  reach = {n for n in rels if not (revalidates and _passes_owner(n)) and (
+      _recv(n) is None or not _owned_at(g, _recv(n), n))}
   if rels and all(n not in reach for n in rels):
     ctx.ok(rule, ra, 'release_all guarded by is_available(self)', ra.node)
   else:
@@ -746,6 +753,10 @@ def _container_discipline(g, fi) -> bool:
 
 
 _OWN_TESTS = ('acquire_by', 'is_available', 'is_locked')
+_ALL_OWN_TESTS = _OWN_TESTS
+# facts that stay true until this pool releases: a successful acquire, "locked AND owned by this pool".
+# is_available() also holds for a FREE worker, which any other pool may acquire the next moment.
+_STABLE_OWN_TESTS = ('acquire_by', 'is_locked')
 
 
 def _own_polarity(t: ast.AST, var: str) -> bool | None:
@@ -919,6 +930,151 @@ def r7(ctx: Ctx):
   ctx.floor(rule, 3, n)
 
 
+def _release_revalidates(repo) -> bool:
+  """Worker.release(owner): every path to self._lock.release() passes the owning edge of an owner test under _states_lock."""
+  wk = repo.cls(CW, 'Worker')
+  rel = wk.methods.get('release')
+  if rel is None:
+    raise AnalysisError('Worker.release not found')
+  # (b) the callee
+  params = [a.arg for a in rel.node.args.args[1:]] + [a.arg for a in rel.node.args.kwonlyargs]
+  g = cfgm.cfg_of(rel.node)
+  lock_rel = [nd for nd in g.nodes for x in cfgm.node_exprs(nd) for c in ast.walk(x)
+              if isinstance(c, ast.Call) and unparse(c.func) == 'self._lock.release']
+  if not lock_rel:
+    raise AnalysisError('Worker.release: no self._lock.release() found')
+  revalidates = False
+  if params:
+    owner = params[0]
+
+    def fold(t):
+      """'own' / 'notown' / True / False / None (unknown), assuming the owner argument is given."""
+      if isinstance(t, ast.UnaryOp) and isinstance(t.op, ast.Not):
+        v = fold(t.operand)
+        return {'own': 'notown', 'notown': 'own', True: False, False: True}.get(v)
+      if isinstance(t, ast.Compare) and len(t.ops) == 1:
+        l, r = unparse(t.left), unparse(t.comparators[0])
+        is_, isnot = isinstance(t.ops[0], (ast.Is, ast.Eq)), isinstance(t.ops[0], (ast.IsNot, ast.NotEq))
+        if {l, r} == {owner, 'None'}:
+          return False if is_ else True if isnot else None
+        if {l, r} == {'self._worker_pool', owner}:
+          return 'own' if is_ else 'notown' if isnot else None
+        return None
+      if isinstance(t, ast.Name) and t.id == owner:
+        return True
+      if isinstance(t, ast.Call) and unparse(t.func) in ('self.is_available', 'self.is_locked') and t.args and (
+          unparse(t.args[0]) == owner):
+        # under _states_lock: free (then `if self._lock.locked()` releases nothing) or owned
+        return 'own'
+      if isinstance(t, ast.BoolOp):
+        vals = [fold(v) for v in t.values]
+        if isinstance(t.op, ast.And):
+          if False in vals:
+            return False
+          rest = [v for v in vals if v is not True]
+          return True if not rest else rest[0] if len(rest) == 1 else ('own' if 'own' in rest else None)
+        if True in vals:
+          return True
+        rest = [v for v in vals if v is not False]
+        return False if not rest else rest[0] if len(rest) == 1 else ('notown' if all(v == 'notown' for v in rest) else None)
+      return None
+
+    def edge_ok(p, q, lab):
+      if p.kind == 'cond':
+        v = fold(p.ast)
+        if (v == 'own' and lab == 'true') or (v == 'notown' and lab == 'false'):
+          return False
+        if (v is True and lab == 'false') or (v is False and lab == 'true'):
+          return False
+      return True
+
+    reach = g.reachable([g.entry], edge_ok=edge_ok, include_src=True)
+    revalidates = not any(nd in reach for nd in lock_rel)
+    # ... and the test sits inside the state-lock block
+    withs = [w for w in ast.walk(rel.node) if isinstance(w, ast.With) and any(
+        unparse(it.context_expr) == 'self._states_lock' for it in w.items)]
+    tests = [nd for nd in g.nodes if nd.kind == 'cond' and fold(nd.ast) in ('own', 'notown')]
+    inside = bool(withs) and all(any(nd.ast is y for w in withs for y in ast.walk(w)) for nd in tests) and bool(tests)
+    revalidates = revalidates and inside
+  return revalidates
+
+
+def r12(ctx: Ctx):
+  global _OWN_TESTS
+  rule = 'R-C20-12'
+  ctx.rule(rule, '"a pool can only release workers it owns or that are free ... for all concurrent sequences of'
+           ' acquire/release calls from several pools and threads": an availability test is not an ownership fact —'
+           ' is_available(pool) also holds for a FREE worker, and between that test and the release another pool can'
+           ' acquire it. So (a) a `w.release()` WITHOUT an owner argument needs a stable fact for w (true edge of'
+           ' acquire_by / is_locked(pool), an acquiring next_idle_worker, a container of such workers); a release that'
+           ' rests on is_available alone hands the pool to Worker.release; and (b) Worker.release re-validates: with'
+           ' an owner given, every path to `self._lock.release()` passes — inside the `with self._states_lock` block —'
+           ' the owning edge of a test of `self._worker_pool` against that owner')
+  repo = ctx.repo
+  wk = repo.cls(CW, 'Worker')
+  rel = wk.methods.get('release')
+  if rel is None:
+    raise AnalysisError('Worker.release not found')
+  n = 0
+  revalidates = _release_revalidates(repo)
+  n += 1
+  # (a) the callers
+  targets = []
+  for fi in repo.all_functions():
+    if fi.module.name.endswith(('courier_worker', 'orchestrate')):
+      targets.append(fi)
+      for name, nd in _nested(fi.node).items():
+        targets.append(FuncInfo(fi.module, f'{fi.qualname}.{name}', nd, fi.cls))
+  needs_callee = []
+  for fi in targets:
+    if fi.cls is not None and fi.cls.name == 'Worker':
+      continue
+    g2 = cfgm.cfg_of(fi.node)
+    seen = set()
+    for nd in g2.nodes:
+      for x in cfgm.node_exprs(nd):
+        for c in ast.walk(x):
+          if not (isinstance(c, ast.Call) and isinstance(c.func, ast.Attribute) and c.func.attr == 'release'
+                  and isinstance(c.func.value, ast.Name) and 'lock' not in c.func.value.id.lower()):
+            continue
+          if id(c) in seen:
+            continue
+          seen.add(id(c))
+          var = c.func.value.id
+          n += 1
+          nodes = [nd2 for nd2 in g2.nodes if any(c is c2 for x2 in cfgm.node_exprs(nd2) for c2 in ast.walk(x2))]
+          _OWN_TESTS = _STABLE_OWN_TESTS
+          try:
+            stable = all(_owned_at(g2, var, nd2) for nd2 in nodes)
+          finally:
+            _OWN_TESTS = _ALL_OWN_TESTS
+          passes_owner = bool(c.args or c.keywords)
+          what = f'{fi.qualname}: {var}.release() atomically tied to ownership'
+          if stable:
+            ctx.ok(rule, fi, what, c)
+          elif passes_owner:
+            needs_callee.append((fi, c, var))
+            if revalidates:
+              ctx.ok(rule, fi, what, c)
+            else:
+              ctx.fail(rule, fi, what,
+                       f'{fi.qualname} hands the pool to `{unparse(c)}`, but Worker.release does not re-validate the owner'
+                       ' under _states_lock on every path to self._lock.release(): the availability test the caller made'
+                       ' is stale by then — a worker that was free can have been acquired by another pool, and is released'
+                       ' under its feet', node=c)
+          else:
+            ctx.fail(rule, fi, what,
+                     f'{fi.qualname} calls `{unparse(c)}` with no stable ownership fact for `{var}`: the only guard is an'
+                     ' availability test (true for a FREE worker too), and Worker.release() without an owner is'
+                     ' unconditional. Between the test and the release another pool can acquire the worker; it is then'
+                     ' released under its feet and a third pool can take it as well. Pass the pool: `release(self)`',
+                     node=c)
+  what = 'Worker.release: with an owner given, the lock is released only on the owning edge of a test under _states_lock'
+  if revalidates or not needs_callee:
+    ctx.ok(rule, rel, what, rel.node)
+  ctx.floor(rule, 5, n)
+
+
 def r8(ctx: Ctx):
   rule = 'R-C20-8'
   ctx.rule(rule, '"recorded heartbeats never move backwards": register() stores'
@@ -1075,7 +1231,7 @@ _W = 'chainables/courier_worker.py'
 _O = 'chainables/orchestrate.py'
 VARIANTS = [
     B('release-all-keeps-busy-workers', 'chainables/courier_worker.py',
-      '      if worker.is_available(self):\n        worker.release()', '      if worker.is_available(self) and not worker.pendings:\n        worker.release()', 'R-C20-5'),
+      '      if worker.is_available(self):\n        worker.release(self)', '      if worker.is_available(self) and not worker.pendings:\n        worker.release(self)', 'R-C20-5'),
     B('answered-ping-registers', 'utils/courier_utils.py',
       '            _worker_registry.refresh(self.address, state_and_time.time)',
       '            if state_and_time is self._heartbeat:\n              _worker_registry.register(self.address, state_and_time.time)\n            else:\n              _worker_registry.refresh(self.address, state_and_time.time)', 'R-C20-11'),
@@ -1104,10 +1260,22 @@ VARIANTS = [
       '      if not (worker.has_capacity and worker.is_alive):\n        worker.release()\n        continue\n      if worker.acquire_by(self):\n        return worker',
       'R-C20-7'),
     B('release-all-unconditional', _W,
-      '      if worker.is_available(self):\n        worker.release()', '      worker.release()', 'R-C20-7'),
+      '      if worker.is_available(self):\n        worker.release(self)', '      worker.release()', 'R-C20-7'),
     OK('release-all-guard-inverted', _W,
-       '      if worker.is_available(self):\n        worker.release()',
-       '      if not worker.is_available(self):\n        continue\n      worker.release()'),
+       '      if worker.is_available(self):\n        worker.release(self)',
+       '      if not worker.is_available(self):\n        continue\n      worker.release(self)'),
+    B('revert-release-all-without-owner', _W,
+      '      if worker.is_available(self):\n        worker.release(self)', '      if worker.is_available(self):\n        worker.release()', 'R-C20-12'),
+    B('release-ignores-the-owner', _W,
+      '      if worker_pool is not None and self._worker_pool is not worker_pool:\n        # Free, or acquired by another pool since the caller looked.\n        return\n', '', 'R-C20-12'),
+    B('release-validates-outside-the-state-lock', _W,
+      '    with self._states_lock:\n      if worker_pool is not None and self._worker_pool is not worker_pool:\n        # Free, or acquired by another pool since the caller looked.\n        return\n',
+      '    if worker_pool is not None and self._worker_pool is not worker_pool:\n      return\n    with self._states_lock:\n', 'R-C20-12'),
+    OK('release-all-relies-on-release', _W,
+       '      if worker.is_available(self):\n        worker.release(self)', '      worker.release(self)'),
+    OK('release-revalidates-positive-form', _W,
+       '      if worker_pool is not None and self._worker_pool is not worker_pool:\n        # Free, or acquired by another pool since the caller looked.\n        return\n      if self._lock.locked():\n        self._lock.release()\n      self._worker_pool = None',
+       '      if worker_pool is None or self._worker_pool is worker_pool:\n        if self._lock.locked():\n          self._lock.release()\n        self._worker_pool = None'),
     B('get-without-lock', _U,
       '    with self._lock:\n      if (result := self.data.get(key, default)) is None:\n        # None means the client has pronounced dead.\n        return 0\n\n      return result',
       '    if (result := self.data.get(key, default)) is None:\n      return 0\n    return result',
@@ -1142,7 +1310,7 @@ VARIANTS = [
       '      if self._worker_pool is not worker_pool:\n        self._worker_pool = worker_pool\n        self._lock.acquire(blocking=blocking)\n',
       'R-C20-5'),
     B('release-all-unguarded', _W,
-      '      if worker.is_available(self):\n        worker.release()', '      worker.release()',
+      '      if worker.is_available(self):\n        worker.release(self)', '      worker.release()',
       'R-C20-5'),
     B('release-all-alive-only', _W, '    workers = workers or self._workers\n    for worker in workers:\n      if worker.is_available(self):',
       '    workers = workers or self.workers\n    for worker in workers:\n      if worker.is_available(self):', 'R-C20-5'),
